@@ -547,6 +547,7 @@ func (r *collection) addService(service any, lifetime Lifetime, opts ...AddOptio
 		}
 
 		// Register each field as a separate service that points to the same constructor
+		outputs := make([]*Descriptor, 0, len(descriptor.resultFields))
 		for _, field := range descriptor.resultFields {
 			// Create a descriptor for each field type
 			fieldDescriptor := &Descriptor{
@@ -574,6 +575,12 @@ func (r *collection) addService(service any, lifetime Lifetime, opts ...AddOptio
 					Cause:       err,
 				}
 			}
+
+			outputs = append(outputs, fieldDescriptor)
+		}
+
+		for _, output := range outputs {
+			output.outputs = outputs
 		}
 
 		// Don't register the result object type itself
@@ -592,6 +599,7 @@ func (r *collection) addService(service any, lifetime Lifetime, opts ...AddOptio
 
 		// If we have multiple non-error returns, register each as a separate service
 		if len(nonErrorReturns) > 1 {
+			outputs := make([]*Descriptor, 0, len(nonErrorReturns))
 			for i, ret := range nonErrorReturns {
 				// Create a descriptor for each return type
 				typeDescriptor := &Descriptor{
@@ -625,7 +633,14 @@ func (r *collection) addService(service any, lifetime Lifetime, opts ...AddOptio
 						Cause:       err,
 					}
 				}
+
+				outputs = append(outputs, typeDescriptor)
 			}
+
+			for _, output := range outputs {
+				output.outputs = outputs
+			}
+
 			return nil
 		}
 	}
